@@ -6,8 +6,8 @@
    copies Global, Inputs and Outputs; staged operations end in publish, which runs SanityCheck
    on the staged packet FIRST and assigns only on success; SignInput works on the staged copy).
    Still as before: the single-field setters mutate first and sanity-check afterwards; New
-   validates nothing; Input.GetUtxo writes the range proof into the stored previous output
-   (a shared object: it goes through any copy); issuances can be attached to finalized inputs.
+   validates nothing; issuances can be attached to finalized inputs. (Input.GetUtxo no longer
+   writes: fix 7d6e201; empty derivation paths parse: fix 2b1b006.)
 
    The state is abstract: it carries exactly what C11 talks about (declared counts, the list
    of inputs split into the part no operation changes after creation — outpoint, sequence,
@@ -427,7 +427,8 @@ Definition on_output (p : pset) (i : Z) (f : outp -> outp * lres)
     ((p_auxs p, outs, g_scalars p), finish r (sanity_parts (p_auxs p) outs (g_scalars p)))
   end.
 
-(* Input.GetUtxo — a getter that writes the input's range proof into the stored previous output *)
+(* Input.GetUtxo — since fix 7d6e201 it hands out a copy and no longer writes the range proof into the stored
+   previous output (a_nwrp stays false; the second component is kept for the shape of the callers) *)
 Inductive gu := GuNil | GuPanic | GuSome (u : utxo) (a' : aux).
 Definition get_utxo (c : core) (a : aux) : gu :=
   match a_w a with
@@ -436,7 +437,7 @@ Definition get_utxo (c : core) (a : aux) : gu :=
     if negb (a_nw a) then GuNil
     else match nth_error prevouts (N.to_nat (N.min (c_idx c) 1000)) with
          | None => GuPanic
-         | Some s => GuSome {| u_script := s; u_conf := false |} (set_a_nwrp (a_urp a) a)
+         | Some s => GuSome {| u_script := s; u_conf := false |} a
          end
   end.
 
